@@ -243,7 +243,7 @@ func compareKey(o *model.Obj, k *keyDump, d0, d1 int64, floatOK bool) string {
 			if floatOK {
 				a, e1 := strconv.ParseFloat(k.Str, 64)
 				b, e2 := strconv.ParseFloat(string(o.S), 64)
-				if e1 == nil && e2 == nil && a == b {
+				if e1 == nil && e2 == nil && a == b && model.HumanFloat(k.Str) {
 					o.S = []byte(k.Str)
 					break
 				}
@@ -278,7 +278,7 @@ func compareKey(o *model.Obj, k *keyDump, d0, d1 int64, floatOK bool) string {
 				if floatOK {
 					a, e1 := strconv.ParseFloat(sv, 64)
 					b, e2 := strconv.ParseFloat(v, 64)
-					if e1 == nil && e2 == nil && a == b {
+					if e1 == nil && e2 == nil && a == b && model.HumanFloat(sv) {
 						o.H[f] = sv
 						continue
 					}
